@@ -95,7 +95,7 @@ func (cache *Cache) BatchVerify(signature hotstuff.QuorumSignature, batch map[ho
 	for _, id := range ids {
 		_, _ = hasher.Write(batch[id])
 	}
-	hasher.Sum(hash[:])
+	copy(hash[:], hasher.Sum(nil))
 
 	var key strings.Builder
 	_, _ = key.Write(hash[:])
